@@ -19,7 +19,8 @@ TraceInit == CSInit /\ l = 1 /\ subj = [subject |-> "none", fam |-> "none", vari
 
 Max2(a, b) == IF a > b THEN a ELSE b
 
-(* a normalised frequency table of a real rANS / FSE coder *)
+(* a normalised frequency table of a real rANS / FSE coder: every present symbol owns a slot, *)
+(* the slot ranges are cumulative and fit the table (an under-full table is not an error)    *)
 TableStep(e) ==
     /\ FN!TableOK(e.freq, e.norm, e.total)
     /\ FN!StartsCumulative(e.start, e.norm)
@@ -54,7 +55,7 @@ TraceNext ==
        ELSE /\ subj' = subj
             /\ IF UseKF /\ \E id \in KnownIds : DevApplies(id, e, subj, mech)
                THEN LET id == CHOOSE x \in KnownIds : DevApplies(x, e, subj, mech) IN
-                    KnownDeviation(id, e, subj, mech) /\ kf' = kf \cup {id}
+                    KnownDeviation(id, e, subj, mech, mech') /\ kf' = kf \cup {id}
                ELSE Step(e) /\ kf' = kf
 
 TraceSpec == TraceInit /\ [][TraceNext]_vars
